@@ -972,7 +972,7 @@ def main(tier):
     import c07
     sub7 = core.Report("C07", level="other", rules=c07.RULES, tier=tier)
     st7 = {"sites": 0}
-    for fi7 in [f for n7, f in ii.methods.items() if n7 not in ("__init__",)] + [prog.func("iindexes", "column_stack")]:
+    for fi7 in [f for n7, f in ii.methods.items() if n7 not in ("__init__",) and not (n7.startswith("_") and not n7.startswith("__"))] + [prog.func("iindexes", "column_stack")]:
         c07.analyse_root(prog, fi7, sub7, st7)
     k7 = 0
     for o in sub7.obls:
